@@ -19,6 +19,12 @@ type c10Case struct {
 	Route   string  `json:"route"`            // pipe_unary | pipe_stream | http_unary | http_init | pipe_describe | http_describe
 	Beyond  bool    `json:"beyond_int64,omitempty"`
 	Variant string  `json:"variant"`
+	// Prelude: the same Server object first declared PrevServer ("" = none)
+	// and served one call stamped PrevClient (nil = the judged call's own
+	// version string), then was re-declared to Server for the judged call.
+	Prelude    bool    `json:"prelude,omitempty"`
+	PrevServer string  `json:"prev_server,omitempty"`
+	PrevClient *string `json:"prev_client,omitempty"`
 }
 
 var comps = []string{"0", "1", "9", "10", "2147483648", "9223372036854775807"}
@@ -94,6 +100,27 @@ func genC10(t *rapid.T) c10Case {
 		set("v" + base)
 	case "noise":
 		set(rapid.String().Draw(t, "noise"))
+	}
+	if rapid.IntRange(0, 3).Draw(t, "prelude") == 0 {
+		// a server whose declared version changes while it serves: what was
+		// admitted or refused under the old declaration must not carry over
+		c.Prelude = true
+		switch rapid.IntRange(0, 3).Draw(t, "prevsrv") {
+		case 0:
+			c.PrevServer = ""
+		case 1:
+			if c.Client != nil {
+				if _, _, ok := refSemver(*c.Client); ok && !c.Beyond {
+					c.PrevServer = *c.Client // the judged client string was a match before
+				}
+			}
+		default:
+			c.PrevServer = genSemver(t, "ps", false)
+		}
+		if rapid.Bool().Draw(t, "prevclientown") {
+			v := genSemver(t, "pc", false)
+			c.PrevClient = &v
+		}
 	}
 	return c
 }
@@ -174,6 +201,40 @@ func runC10(c c10Case) (out lib.Outcome) {
 		return
 	}
 	srv := newServer("srv", false, c.Server)
+	if c.Prelude {
+		// configure with the earlier declaration, serve one unary call, re-declare
+		func() {
+			defer func() {
+				if rv := recover(); rv != nil {
+					srv = nil
+				}
+			}()
+			srv = newServer("srv", false, c.PrevServer)
+		}()
+		if srv == nil {
+			out.Label("server-version-rejected-at-config")
+			out.Skipped = true
+			return
+		}
+		pre := lib.CallSpec{Kind: "unary", Method: "u_str", Unary: &lib.UnaryScript{ID: "prelude", Outcome: "value", Value: "x"}}
+		pre.Opts.ProtocolVersion = c.Client
+		if c.PrevClient != nil {
+			pre.Opts.ProtocolVersion = c.PrevClient
+		}
+		preq, _ := pre.PipeBytes()
+		if strings.HasPrefix(c.Route, "pipe") {
+			if res := lib.RunPipe(srv, preq); res.Panic != "" {
+				out.Violate("C10/pipe-broken", "prelude call panicked: %s", lib.Short(res.Panic, 200))
+				return
+			}
+		} else if resp := lib.PostArrow(newHTTP(srv), "/u_str", preq, nil); resp.Panic != "" {
+			out.Violate("C10/http-panic", "prelude call panicked: %s", lib.Short(resp.Panic, 300))
+			return
+		}
+		lib.ResetEvents()
+		srv.SetProtocolVersion(c.Server)
+		out.Label("redeclared")
+	}
 	var streams []lib.StreamM
 	status := 0
 	req, in := call.PipeBytes()
@@ -277,11 +338,11 @@ func toString(v any) string {
 
 var propC10 = lib.Prop[c10Case]{
 	ID: "C10",
-	Rule: "server version unset or canonical semver with components from {0,1,9,10,2^31,2^63-1} (separately labelled class: components beyond int64); client version absent, identical, patch/minor/major +-1, random canonical, leading zeros, -rc1, +build, whitespace/newline, empty, two- and four-part, unicode digits, v-prefix, noise; routes pipe unary/stream, HTTP unary, /init and __describe__ on both transports; " +
+	Rule: "server version unset or canonical semver with components from {0,1,9,10,2^31,2^63-1} (separately labelled class: components beyond int64); client version absent, identical, patch/minor/major +-1, random canonical, leading zeros, -rc1, +build, whitespace/newline, empty, two- and four-part, unicode digits, v-prefix, noise; routes pipe unary/stream, HTTP unary, /init and __describe__ on both transports; in a quarter of the cases the same Server first carried another declaration (none, the client's own version, random) under which it served one call, and was then re-declared; " +
 		"oracle: reference big-integer strict semver gate decides dispatch (observed via the handler call log), refusal kind/type/status and the directional message. Non-trivial: server version set and client differs from it.",
 	Gen:          genC10,
 	Run:          runC10,
-	Essential:    []string{"admitted", "refused:absent", "refused:malformed", "refused:client-old", "refused:server-old", "route:pipe_stream", "route:http_init", "route:http_describe"},
+	Essential:    []string{"admitted", "refused:absent", "refused:malformed", "refused:client-old", "refused:server-old", "route:pipe_stream", "route:http_init", "route:http_describe", "redeclared"},
 	EssentialMin: 300,
 }
 
